@@ -1047,6 +1047,8 @@ def execute(sim, scenario):
         mutating = ("mkstemp", "write", "truncate", "rename", "unlink", "mkdir", "rmdir")
         if not write:
             for e in fs.journal:
+                if e["err"] is not None:
+                    continue  # a refused attempt modified nothing
                 if e["op"] in mutating or (e["op"] == "open" and any(c in e.get("mode", "") for c in "wax+")):
                     info = {"fs_op": e["op"], "paths": e["paths"], "err": e["err"]}
                     w = attribute(e, e["paths"][-1])
